@@ -1,19 +1,97 @@
 (* C03 — ABI decode inverts the specification encoding; JSON output denotes the value in every
-   serializer mode.  Statements only; proofs live in Abi/DecProofs*.v, Abi/SerProofs.v. *)
+   serializer mode.  Statements only; proofs live in Abi/DecProofs*.v, Abi/SerProofs*.v. *)
 From Coq Require Import List NArith ZArith Bool Lia.
 From Coq Require Import Init.Byte.
 From FFS Require Import Base.Res Base.Bytes Abi.Types Abi.Spec Abi.ModelTypes.
-From FFS Require Import Abi.DecModel Abi.DecSpec Abi.SerModel Abi.SerSpec Abi.DecProofs.
+From FFS Require Import Abi.DecModel Abi.DecSpec Abi.SerModel Abi.SerSpec.
+From FFS Require Import Abi.DecProofs Abi.DecProofs2 Abi.DecProofs3 Abi.DecProofs4.
 Import ListNotations.
+Local Open Scope Z_scope.
 
-(* The decoder's type-driven notion of "dynamic" is the specification's, on every component tree
-   the type parser can build that has no zero-length fixed array (there isDynamicType says "static"
-   whatever the element type is). *)
+(* 1. The decoder's type-driven notion of "dynamic" is the specification's, on every component tree
+      the type parser can build that has no zero-length fixed array (there isDynamicType says
+      "static" whatever the element type is). *)
 Theorem C03_dynamic_agree :
   forall c : tcomp, tc_consistent c = true -> tc_no_zero_len c = true ->
     isDynamicType c = dynamic (ty_of c).
 Proof. exact isDynamicType_dynamic. Qed.
 Print Assumptions C03_dynamic_agree.
+
+(* 2. Decoding the specification encoding of any well-typed value of any valid parameter list,
+      placed after arbitrary bytes and followed by arbitrary bytes, returns exactly that value:
+      [cv_of c v] is the tree with the same integers, bytes, strings, array lengths and tuple
+      structure, every node carrying its component.  Guards: the component tree is what the type
+      parser builds for a valid type ([tc_consistent], [wf_ty]), no fixed-point type, no T[0] (the
+      quantifier's exclusions), and the sizes the decoder's 32-bit count/offset reader accepts. *)
+Theorem C03_decode_encode :
+  forall (children : list tcomp) (k : bytes) (v : val) (pre post : bytes),
+    let c := TCTuple children k in
+    tc_consistent c = true -> wf_ty (ty_of c) = true ->
+    tc_no_fixed_point c = true -> tc_no_zero_len c = true ->
+    well_typed (ty_of c) v = true ->
+    zlen (enc (ty_of c) v) < 2 ^ 32 -> counts_ok v = true ->
+    DecodeABIData c (pre ++ enc (ty_of c) v ++ post) (zlen pre) = Ok (cv_of c v).
+Proof. exact DecodeABIData_enc. Qed.
+Print Assumptions C03_decode_encode.
+
+(* 2'. ... and that tree denotes v. *)
+Theorem C03_decode_returns_value :
+  forall (children : list tcomp) (k : bytes) (v : val) (pre post : bytes),
+    let c := TCTuple children k in
+    tc_consistent c = true -> wf_ty (ty_of c) = true ->
+    tc_no_fixed_point c = true -> tc_no_zero_len c = true ->
+    well_typed (ty_of c) v = true ->
+    zlen (enc (ty_of c) v) < 2 ^ 32 -> counts_ok v = true ->
+    exists x, DecodeABIData c (pre ++ enc (ty_of c) v ++ post) (zlen pre) = Ok x /\ val_of x = v.
+Proof. exact decode_returns_value. Qed.
+Print Assumptions C03_decode_returns_value.
+
+(* 3. The same for every element at any nesting depth, over an arbitrary block (the generalisation
+      the induction needs): a static element whose encoding sits at the head position is read in
+      place, whatever the head start is; a dynamic element is found through the offset word at the
+      head position, relative to the head start. *)
+Theorem C03_decode_element :
+  forall (block : bytes) (c : tcomp) (v : val),
+    good c = true -> well_typed (ty_of c) v = true -> sizes_ok (ty_of c) v ->
+    if dynamic (ty_of c) then
+      forall hs hp o, 0 <= o < 2 ^ 32 -> embedded block hp (word o) ->
+                      embedded block (hs + o) (enc (ty_of c) v) ->
+                      decodeABIElement block c hs hp = Ok (32, cv_of c v)
+    else
+      forall hs hp, embedded block hp (enc (ty_of c) v) ->
+                    decodeABIElement block c hs hp = Ok (zlen (enc (ty_of c) v), cv_of c v).
+Proof. intros block c v Hg Hwt Hs. exact (decodeABIElement_enc block c Hg v Hwt Hs). Qed.
+Print Assumptions C03_decode_element.
+
+(* 4. With the 4-byte selector in front (Entry.DecodeCallData). *)
+Theorem C03_decode_call_data :
+  forall (id : bytes) (children : list tcomp) (k : bytes) (v : val) (post : bytes),
+    let c := TCTuple children k in
+    length id = 4%nat ->
+    tc_consistent c = true -> wf_ty (ty_of c) = true ->
+    tc_no_fixed_point c = true -> tc_no_zero_len c = true ->
+    well_typed (ty_of c) v = true ->
+    zlen (enc (ty_of c) v) < 2 ^ 32 -> counts_ok v = true ->
+    DecodeCallData id c (id ++ enc (ty_of c) v ++ post) = Ok (cv_of c v).
+Proof. exact DecodeCallData_enc. Qed.
+Print Assumptions C03_decode_call_data.
+
+(* non-vacuity: a dynamic tuple inside a fixed array next to a string, named and unnamed members,
+   decoded after a selector and before trailing bytes *)
+Example C03_decode_nonvacuous :
+  let u8 := TCElem EUInt [x38] 8 0 [x61] in
+  let byt := TCElem EBytes [] 0 0 [] in
+  let st := TCElem EString [] 0 0 [x73] in
+  let i16 := TCElem EInt [x31; x36] 16 0 [] in
+  let c := TCTuple [TCFixedArr 2 (TCTuple [u8; byt] [x74]) [x74]; st; TCDynArr i16 []] [] in
+  let v := VList [VList [VList [VNum 255; VBytes [x01; x02; x03]]; VList [VNum 0; VBytes []]];
+                  VBytes [x68; x69]; VList [VNum (-1); VNum 32767; VNum (-32768)]] in
+  tc_consistent c = true /\ wf_ty (ty_of c) = true /\ tc_no_fixed_point c = true /\ tc_no_zero_len c = true /\
+  well_typed (ty_of c) v = true /\ zlen (enc (ty_of c) v) < 2 ^ 32 /\ counts_ok v = true /\
+  dynamic (ty_of c) = true /\
+  DecodeABIData c ([x00; x01; x02; x03] ++ enc (ty_of c) v ++ [xff]) 4 = Ok (cv_of c v) /\
+  val_of (cv_of c v) = v.
+Proof. vm_compute. repeat split; try reflexivity. Qed.
 
 Example C03_dynamic_agree_nonvacuous :
   let c := TCTuple [TCFixedArr 2 (TCTuple [TCElem EUInt [x38] 8 0 []; TCElem EBytes [] 0 0 []] []) []] [] in
